@@ -1439,3 +1439,39 @@ def recv_cancel_safe(ctx, rule):
     ctx.require(not bad, rule, "recv-cancel-safe", "recv awaits nothing but its selects: a received control is returned without a further suspension point", f.loc(f.line), detail=str(bad),
                 fail="PriorityReceiver::recv awaits %s besides its selects: when the job task's outer select! takes the process-end branch while recv is suspended there, "
                      "recv is dropped together with the control it had already taken from the queue - that control never runs and its ticket never resolves" % bad)
+
+
+def flag_identity(ctx, B, rule):
+    """The job task holds two kinds of Flag under similar names: the job-gone flag (a clone of the `gone` parameter, raised when the task
+    ends) and the completion flag of the control being handled.  Decided by binding identity, not by name: no handler body refers to the
+    job-gone flag - raising it from a handler marks a living job dead (every ticket resolves at once, later controls are cancelled, the
+    library's worker forgets the job and creates a second one for the same Id)."""
+    # the flag handed to the Job handle as `gone` (field of the Job literal built in start_job) and every local that is a clone of it
+    gone_ids = set()
+    sj = thir.root(B.start_job)
+    for n in thir.walk(sj):
+        if n.get("k") == "adt" and str(n.get("adt", "")).endswith("job::Job"):
+            for fname, fx in n.get("f", []):
+                x = thir.peel(fx)
+                if fname == "gone" and isinstance(x, dict) and x.get("k") == "var" and "id" in x:
+                    gone_ids.add(x["id"])
+    for _ in range(3):
+        for body in (B.start_job, B.b0):
+            for n in thir.walk(thir.root(body)):
+                if n.get("k") == "let" and isinstance(n.get("p"), dict) and n["p"].get("k") == "bind" and "id" in n["p"] and isinstance(n.get("i"), dict):
+                    src = thir.peel(n["i"])
+                    if isinstance(src, dict) and src.get("k") == "call" and src.get("a") and pathx.desc(src).startswith("Clone::clone("):
+                        src = thir.peel(src["a"][0])
+                    if isinstance(src, dict) and src.get("k") in ("var", "upvar") and src.get("id") in gone_ids:
+                        gone_ids.add(n["p"]["id"])
+    ctx.floor(rule, "bindings of the job-gone flag in the job task", len(gone_ids), 2)
+    for label, body in (("process-end handler", B.b1), ("control handler", B.b2)):
+        refs = []
+        for g in [body] + ctx.facts.descendants(body):
+            for n in thir.walk(thir.root(g)):
+                if n.get("k") in ("var", "upvar") and n.get("id") in gone_ids:
+                    refs.append(g.loc(n.get("l")))
+        ctx.require(not refs, rule, "gone-flag-not-in:" + label.replace(" ", "-"), "the %s never touches the job-gone flag (binding identity, whatever the variable is called)" % label,
+                    body.loc(body.line), detail=str(refs[:3]),
+                    fail="the %s refers to the job-gone flag (%s): a `done.raise()` there resolves to the task's own end-of-life flag, not to the flag of the control being handled - "
+                         "the job counts as dead while it lives, every ticket resolves before its control ran, and the library creates a second job for the same Id" % (label, refs[:2]))
